@@ -4,6 +4,7 @@ import (
 	"encoding/json"
 	"fmt"
 	"hash/crc32"
+	"sync"
 	"testing"
 
 	"github.com/pion/ice/v4"
@@ -178,5 +179,81 @@ func TestFoundation(t *testing.T) {
 		key := c.Type().String() + f.Addr + c.NetworkType().String()
 
 		return map[string]any{"f": c.Foundation(), "crc": fmt.Sprintf("%d", crc32.ChecksumIEEE([]byte(key))), "nt": c.NetworkType().String()}
+	})
+}
+
+// TestPriorityObj replays runs of PriorityObj on ONE real candidate object each: construct, then SetComponent / attach steps,
+// reading TypePreference, LocalPreference, Priority and Component after the construction and after every step.
+func TestPriorityObj(t *testing.T) {
+	var job struct{ Runs, Out string }
+	loadJob(t, &job)
+	lf := quietLogs()
+	var mu sync.Mutex
+	agents := map[int]*ice.Agent{}
+	defer func() {
+		for _, ag := range agents {
+			ag.Close() //nolint:errcheck,gosec
+		}
+	}()
+	agentFor := func(off int) *ice.Agent {
+		mu.Lock()
+		defer mu.Unlock()
+		if ag, ok := agents[off]; ok {
+			return ag
+		}
+		ag, err := ice.NewAgentWithOptions(ice.WithLoggerFactory(lf), ice.WithMulticastDNSMode(ice.MulticastDNSModeDisabled),
+			ice.WithTCPPriorityOffset(uint16(off))) //nolint:gosec
+		if err != nil {
+			panic(err)
+		}
+		agents[off] = ag
+
+		return ag
+	}
+	mapLines(t, readLines(t, job.Runs), job.Out, func(_ int, line []byte) any {
+		var r struct {
+			Shape prCombo `json:"shape"`
+			Ops   []struct {
+				Op string `json:"op"`
+				V  int    `json:"v"`
+			} `json:"ops"`
+		}
+		if err := json.Unmarshal(line, &r); err != nil {
+			panic(err)
+		}
+		r.Shape.Comp = 1
+		c, err := prCandidate(r.Shape, "", 5000, 0)
+		if err != nil {
+			panic(err)
+		}
+		pc, ok := c.(interface {
+			TypePreference() uint16
+			LocalPreference() uint16
+			SetComponent(uint16)
+		})
+		if !ok {
+			panic("no preference getters")
+		}
+		read := func() []int {
+			v := append([]int{int(pc.TypePreference()), int(pc.LocalPreference())}, le(uint64(c.Priority()), 4)...)
+
+			return append(v, int(c.Component()))
+		}
+		reads := [][]int{read()}
+		for _, o := range r.Ops {
+			switch o.Op {
+			case "comp":
+				pc.SetComponent(uint16(o.V)) //nolint:gosec
+			case "attach":
+				if !ice.VerifAttachCandidate(agentFor(o.V), c) {
+					panic("attach")
+				}
+			default:
+				panic(o.Op)
+			}
+			reads = append(reads, read())
+		}
+
+		return map[string]any{"reads": reads}
 	})
 }
